@@ -85,7 +85,7 @@ def ids_for(style, axis, n):
     if style == 'oddquote':
         # an unbalanced double quote, a lone bracket / brace, a backslash, a comma: text that a hand-written
         # scanner may mistake for structure
-        return [p + x for x in ['"1', ']2 {', '\\3,', '[4"']][:n]
+        return (['"' + p + '1'] + [p + x for x in [']2 {', '\\3,', '[4"']])[:n]      # the first id STARTS with a quote
     if style == 'numeric':
         base = ['1', '2.5', '1e3', 'nan'] if axis == 'observation' else ['7', '0.5', '-3', 'inf']
         return base[:n]
